@@ -536,3 +536,60 @@ def logical_equal(ta, tb):
             if q is None:
                 res = None
     return res
+
+
+def container_regions(view, base=0, path="", in_array=False, depth=0):
+    """Byte regions [(path, first byte, bytes, depth, inside an array element)] of every structure-
+    typed field / array element reachable through present, located fields of a byte structure."""
+    out = []
+    for f in view.struct.fields:
+        if f.virtual or f.kind not in ("struct", "array"):
+            continue
+        info = _field_info(view, f.name)
+        if not _located(info):
+            continue
+        got, _complete = _slice(view, info)
+        if got is None:
+            continue
+        at = base + info["start"]
+        if f.kind == "struct" and f.struct.unit == 8:
+            sub = _subview(view, info)
+            out.append((path + "." + f.name, at, len(got), depth + 1, in_array))
+            out.extend(container_regions(sub, at, path + "." + f.name, in_array, depth + 1))
+        elif f.kind == "array" and f.elem.kind == "struct":
+            eu = f.elem_units
+            for i in range(len(got) // eu):
+                p = "%s.%s[%d]" % (path, f.name, i)
+                sv = _View(f.elem.struct, [ev(view, a) for a in f.elem.args], 8, data=got[i * eu:(i + 1) * eu])
+                out.append((p, at + i * eu, eu, depth + 1, True))
+                out.extend(container_regions(sv, at + i * eu, p, True, depth + 1))
+    return out
+
+
+def classify_bits(struct, params, data):
+    """For every bit of `data`: does flipping it change what the structure logically holds?  Uses
+    only the reference semantics: the base must be Ok; a bit is 'uncovered' when the flipped buffer
+    is Ok and logically equal (no present field reads it), 'covered' when the flipped buffer is Ok
+    and logically different, None when the flip makes the view not Ok / undecidable.
+    -> (base observation, [(bit index, class, region)]) or (None, []) when the base is not Ok;
+    region = (path, depth, in_array_element) of the innermost structure holding the byte."""
+    data = bytes(data)
+    base = observe(struct, params, data)
+    if base["ok"] is not True:
+        return None, []
+    regs = container_regions(_View(struct, list(params), 8, data=data))
+    out = []
+    for bit in range(8 * len(data)):
+        b = bytearray(data)
+        b[bit // 8] ^= 1 << (bit % 8)
+        o = observe(struct, params, bytes(b))
+        cls = None
+        if o["ok"] is True:
+            q = logical_equal(base, o)
+            cls = None if q is None else ("uncovered" if q else "covered")
+        best = ("", 0, False)
+        for p, at, n, depth, in_arr in regs:
+            if at <= bit // 8 < at + n and depth >= best[1]:
+                best = (p, depth, in_arr)
+        out.append((bit, cls, best))
+    return base, out
